@@ -21,6 +21,7 @@ from harness import core
 LIGHTS = core.Raw("{<<0,0,1,1>>, <<3,4,0,5>>, <<2,3,6,7>>, <<-2,-1,2,3>>, <<-6,2,-3,7>>, <<4,-3,0,5>>, <<0,-4,3,5>>}")
 KS = core.Raw("{1, 7, -5}")
 INV = ["TypeOK", "NaNRing", "NaNExactly", "OffsetInv", "FlatLaw", "FlatIffZeroSlope", "Ranges", "RotLaw"]
+INV_LOC = ["TypeOK", "NaNRing", "NaNExactly"]      # the larger locality configurations: per-window lemmas are done on 3x3
 PROPS = ["Locality", "ReadsOnly"]
 
 # the four cell sizes of the design: (cx, cy) as [num, den]
@@ -156,6 +157,13 @@ def cellsize_jobs():
     return jobs
 
 
+def capped(ctx, key, limit=8):
+    """at most `limit` replay files per failing class; the rest are only counted"""
+    n = ctx.extra.setdefault("violations_per_key", {})
+    n[key] = n.get(key, 0) + 1
+    return n[key] <= limit
+
+
 def strip(case):
     return {k: v for k, v in case.items() if k not in ("job", "raw", "error")}
 
@@ -180,7 +188,7 @@ def handle(ctx, cases, tag, parallel=8):
         j = c["job"]
         if distinct_finite(j["vals"]) >= 2:
             ctx.nontrivial((c["kind"], json.dumps(j, sort_keys=True)))
-        if cl != "ok":
+        if cl != "ok" and capped(ctx, "stencil:%s" % cl):
             ctx.violation("stencil:%s" % cl, cl, {"job": j, "observed": c.get("raw"), "case": strip(c) if c["kind"] != "F" else None},
                           "%s %dx%d dtype=%s meta=%s" % (tag, j["H"], j["W"], j.get("dtype"), (j.get("meta") or {}).get("rk")))
         ex = ctx.judge_extra.get(i)
@@ -189,15 +197,16 @@ def handle(ctx, cases, tag, parallel=8):
     ctx.judge_extra.clear()
 
 
-def replay(ctx):
-    blob = json.load(open(ctx.replay))
-    job = blob["case"]["job"]
+def replay(ctx, rec):
+    """re-run exactly the recorded job through the real functions and the judge"""
+    setup(ctx)
+    job = rec["case"]["job"]
     cases = core.run_jobs("stencil_worker", [job], nproc=1)
-    print("replaying %s: observed %s" % (ctx.replay, json.dumps(cases[0].get("raw"))[:600]))
+    print("replaying %s: observed %s" % (rec.get("key"), json.dumps(cases[0].get("raw"))[:600]))
     handle(ctx, cases, "replay", parallel=1)
 
 
-def run(ctx):
+def setup(ctx):
     ctx.rule = ("case = one raster (values, dtype, cell-size metadata, sun position) or one metamorphic pair; "
                 "non-trivial when the raster holds >= 2 distinct finite values; distinct by the full job")
     ctx.assumptions = [
@@ -211,8 +220,10 @@ def run(ctx):
         "+constant / rot90 laws are asserted bit-exactly resp. within 1e-3 degrees on integer-valued elevations "
         "whose partial sums are exact in float32",
     ]
-    if ctx.replay:
-        return replay(ctx)
+
+
+def run(ctx):
+    setup(ctx)
     rng = random.Random(ctx.seed * 7919 + 8)
     thorough = ctx.tier == "thorough"
 
@@ -227,19 +238,26 @@ def run(ctx):
     # non-square cells (the quarter-turn law is vacuous there, the ramp lemma is not)
     ctx.model_check("Stencil", dict(spec="Spec", invariants=INV, properties=PROPS,
                                     constants=mc_consts(3, 3, "{0, 1, NAN}", [1, 2], [2, 1])), "3x3_cell_half_by_2")
-    ctx.model_check("Stencil", dict(spec="Spec", invariants=INV, properties=PROPS,
-                                    constants=mc_consts(3, 3, "{0, 2, NAN}", [2, 1], [2, 1])), "3x3_cell_2_by_2")
-    # locality needs rasters with a cell outside the neighbourhood
-    lv = "{0, 1, NAN}" if thorough else "{0, NAN}"
-    ctx.model_check("Stencil", dict(spec="Spec", invariants=INV, properties=PROPS,
-                                    constants=mc_consts(3, 4, lv, [1, 1], [1, 1])), "locality_3x4")
-    ctx.model_check("Stencil", dict(spec="Spec", invariants=INV, properties=PROPS,
-                                    constants=mc_consts(4, 3, lv, [1, 1], [3, 1])), "locality_4x3")
-    ctx.model_check("Stencil", dict(spec="Spec", invariants=INV, properties=PROPS,
-                                    constants=mc_consts(3, 4, "{0, 1}", [1, 1], [1, 1])), "locality_3x4_finite")
     if thorough:
         ctx.model_check("Stencil", dict(spec="Spec", invariants=INV, properties=PROPS,
+                                        constants=mc_consts(3, 3, "{0, 2, NAN}", [2, 1], [2, 1])), "3x3_cell_2_by_2")
+        ctx.model_check("Stencil", dict(spec="Spec", invariants=INV, properties=PROPS,
+                                        constants=mc_consts(3, 3, "{0, 1, NAN}", [2, 1], [1, 1])), "3x3_cell_2_by_1")
+        ctx.model_check("Stencil", dict(spec="Spec", invariants=INV, properties=PROPS,
+                                        constants=mc_consts(3, 3, "{0, 1, NAN}", [1, 1], [3, 1])), "3x3_cell_1_by_3")
+    # locality needs rasters with a cell outside the neighbourhood
+    lv = "{0, 1, NAN}" if thorough else "{0, NAN}"
+    ctx.model_check("Stencil", dict(spec="Spec", invariants=INV_LOC, properties=PROPS,
+                                    constants=mc_consts(3, 4, lv, [1, 1], [1, 1])), "locality_3x4")
+    ctx.model_check("Stencil", dict(spec="Spec", invariants=INV_LOC, properties=PROPS,
+                                    constants=mc_consts(4, 3, lv, [1, 1], [3, 1])), "locality_4x3")
+    ctx.model_check("Stencil", dict(spec="Spec", invariants=INV if not thorough else INV_LOC, properties=PROPS,
+                                    constants=mc_consts(3, 4, "{0, 1}", [1, 1], [1, 1])), "locality_3x4_finite")
+    if thorough:
+        ctx.model_check("Stencil", dict(spec="Spec", invariants=INV_LOC, properties=PROPS,
                                         constants=mc_consts(4, 4, "{0, NAN}", [1, 1], [1, 1])), "locality_4x4_nan")
+        ctx.model_check("Stencil", dict(spec="Spec", invariants=INV_LOC, properties=PROPS,
+                                        constants=mc_consts(3, 5, "{0, 1}", [1, 1], [1, 1])), "locality_3x5_finite")
     # negative twins: each broken kernel must violate the lemma that is there to catch it
     twins = [("ring", 3, 3, "{0, 1, NAN}", [1, 1], [1, 1], ["NaNRing"], []),
              ("rowleak", 3, 4, "{0, NAN}", [1, 1], [1, 1], [], ["Locality"]),
@@ -263,14 +281,13 @@ def run(ctx):
     if thorough:
         for i in range(4 ** 9):
             jobs.append(f_job(window(i, 4), i))
-        for i in range(3 ** 9):                       # {0,1,NaN} windows under all eight (cell size, way) combos
-            for combo in range(8):
-                if combo != i % 8:
-                    jobs.append(f_job(window(i, 3), i, combo=combo))
+        for i in range(3 ** 9):                       # {0,1,NaN} windows under further (cell size, way) combinations
+            for d in (3, 5):
+                jobs.append(f_job(window(i, 3), i, combo=(i + d) % 8))
     else:
         for i in range(3 ** 9):
             jobs.append(f_job(window(i, 3), i))
-        for i in rng.sample(range(4 ** 9), 6000):
+        for i in rng.sample(range(4 ** 9), 4000):
             jobs.append(f_job(window(i, 4), i))
     cases = core.run_jobs("stencil_worker", jobs)
     handle(ctx, cases, "windows_3x3")
@@ -288,7 +305,7 @@ def run(ctx):
             rows = tile([window(i, 4) for i in order[6 * t:6 * t + 6]], 2, 3)
             jobs.append(f_job(rows, t, az=[225, 0, 90, 315, 37][t % 5], alt=[25, 45, 0, 90, 63][t % 5]))
     else:
-        for t in range(700):
+        for t in range(500):
             rows = tile([window(rng.randrange(4 ** 9), 4) for _ in range(6)], 2, 3)
             jobs.append(f_job(rows, t, az=[225, 0, 90, 315, 37][t % 5], alt=[25, 45, 0, 90, 63][t % 5]))
     # non-square tilings the other way round, and small-integer rasters with negative values
@@ -313,6 +330,11 @@ def run(ctx):
 
     n = ctx.pick(250, 3000)
     jobs = [base("G", rng.choice(["float", "int"])) for _ in range(n)]
+    for (H, W) in [(2, 4), (4, 2), (2, 2), (3, 3), (2, 7)] * ctx.pick(2, 10):      # rasters that are all border
+        j = base("G", "float")
+        j["H"], j["W"], j["vals"] = H, W, rand_raster(rng, H, W, "float")
+        j["meta"] = rand_meta(rng, H, W)
+        jobs.append(j)
     handle(ctx, core.run_jobs("stencil_worker", jobs), "general_rasters", parallel=4)
 
     jobs = []
